@@ -42,6 +42,9 @@ pub enum Ev {
     /// to a huge total difficulty, PoW-valid and self-consistent: it is only recorded as the peer's last state), then a child
     /// of the PROVEN header whose parent chain root is forged to be consistent with that sibling
     ForgedSiblingChild(u8, u32),
+    /// answer the slot's pending proof request with the requested last header whose parent chain root, headers and MMR proof
+    /// are those of the COMPETING branch (same total difficulty at that height): a valid proof of another chain
+    SplicedProof(u8),
 }
 
 #[derive(Debug, Clone, Serialize, Deserialize)]
@@ -144,6 +147,7 @@ impl Property for C12 {
             2 => (0u8..4, any::<u32>()).prop_map(|(s, f)| Ev::ForgedProof(s, f)),
             1 => Just(Ev::Restart),
             2 => (0u8..4, any::<u32>()).prop_map(|(s, f)| Ev::ForgedSiblingChild(s, f)),
+            2 => (0u8..4).prop_map(Ev::SplicedProof),
         ];
         (any::<u64>(), 4u8..50, 0u8..4, 1u8..6, 1u8..5, prop::collection::vec(ev, 1..50)).prop_map(|(seed, len, last_n, fork_depth, fork_extra, events)| Case { seed, len, last_n, fork_depth, fork_extra, events }).boxed()
     }
@@ -299,6 +303,47 @@ fn run_inner(case: &Case, obs: &mut Obs) -> Result<(), Failure> {
                                 w.deliver(SupportProtocols::LightClient, p, bytes);
                                 let bytes = wrap_lc(packed::SendLastState::new_builder().last_header(vc).build()).as_bytes();
                                 w.deliver(SupportProtocols::LightClient, p, bytes);
+                            }
+                        }
+                    }
+                }
+                Ev::SplicedProof(s) => {
+                    if let Some(p) = slots[*s as usize % 4] {
+                        let pos = w.shared.sent.lock().unwrap().iter().position(|(proto, i, d)| {
+                            *i == p && *proto == SupportProtocols::LightClient.protocol_id() && matches!(packed::LightClientMessage::from_slice(d).map(|m| m.to_enum()), Ok(packed::LightClientMessageUnion::GetLastStateProof(_)))
+                        });
+                        if let Some(pos) = pos {
+                            let msg = w.take_request(pos).unwrap();
+                            let sp = w.peer(p).unwrap().clone();
+                            let other = 1 - sp.chain.min(1);
+                            if let Ok(packed::LightClientMessageUnion::GetLastStateProof(req)) = packed::LightClientMessage::from_slice(&msg.2).map(|m| m.to_enum()) {
+                                let mine = &w.chains[sp.chain];
+                                let theirs = &w.chains[other];
+                                if let Some(last_n) = mine.number_of(&req.last_hash()) {
+                                    let view = crate::lcv::sim::server::View { chain: mine, tip: sp.tip.max(last_n) };
+                                    let (honest, layout) = view.send_last_state_proof(&req);
+                                    if let Some(layout) = layout {
+                                        let nums = layout.numbers();
+                                        if last_n >= 1
+                                            && (last_n as usize) < theirs.blocks.len()
+                                            && theirs.blocks[last_n as usize].hash() != mine.blocks[last_n as usize].hash()
+                                            && theirs.total_diff[(last_n - 1) as usize] == mine.total_diff[(last_n - 1) as usize]
+                                            && !nums.is_empty()
+                                        {
+                                            let last = honest.last_header().as_builder().parent_chain_root(theirs.chain_root(last_n - 1)).build();
+                                            let headers: Vec<packed::VerifiableHeader> = nums.iter().map(|n| theirs.verifiable_header(*n)).collect();
+                                            let spliced = packed::SendLastStateProof::new_builder()
+                                                .last_header(last)
+                                                .headers(packed::VerifiableHeaderVec::new_builder().set(headers).build())
+                                                .proof(theirs.proof_for(last_n, &nums))
+                                                .build();
+                                            let phase = w.c().peers.get_state(&p).map(|s| s.to_string().split(' ').next().unwrap_or("").to_string()).unwrap_or_default();
+                                            forged_delivered.push((6, phase));
+                                            obs.label("spliced-proof-of-the-competing-branch");
+                                            w.deliver(SupportProtocols::LightClient, p, wrap_lc(spliced).as_bytes());
+                                        }
+                                    }
+                                }
                             }
                         }
                     }
